@@ -144,8 +144,13 @@ class Campaign:
             self.excluded[k] = self.excluded.get(k, 0) + v
         self.harness_errors.extend(d["harness_errors"])
         for k, v in d.get("extra", {}).items():
-            if isinstance(v, (int, float)) and isinstance(self.extra.get(k), (int, float)):
+            cur = self.extra.get(k)
+            if isinstance(v, bool) and isinstance(cur, bool):
+                self.extra[k] = cur and v
+            elif isinstance(v, (int, float)) and not isinstance(v, bool) and isinstance(cur, (int, float)) and not isinstance(cur, bool):
                 self.extra[k] += v
+            elif isinstance(v, dict) and isinstance(cur, dict):
+                cur.update(v)
             else:
                 self.extra.setdefault(k, v)
 
